@@ -91,6 +91,10 @@ _uid = [0]
 def _op(kind, rng_pick=0):
     _uid[0] += 1
     ev = dict(ts=10**15 + _uid[0] * 1000, dur=500, data={"uid": _uid[0]})
+    if (rng_pick + _uid[0]) % 6 == 0:
+        # an event that reaches into the future of the machine's clock (a watcher whose clock runs ahead): legal, the library
+        # merely remarks on it - and whatever it does to find its remark must not stand between the write and its commit
+        ev["ts"] = int(time.time()) * 10**6 + 86400 * 10**6 + _uid[0] * 1000
     if kind == "insert":
         return dict(op="insert", b="b", ev=ev)
     if kind == "bulk":
